@@ -172,6 +172,24 @@ class World:
             except Exception as e:
                 # failures of a step itself are C17's business; the history goes on
                 self.labels.add(f"step-failed:{op}:{type(e).__name__}")
+                if op == "compute" and len(step.get("ids", [])) > 1:
+                    # ... unless every requested member computes on its own with the same settings: then the failure is an effect
+                    # of computing them together at this point of the history
+                    inner = self.ts._store._store_dict
+                    snap = dict(inner)
+                    alone_ok = True
+                    try:
+                        for i in sorted({i % len(self.pool) for i in step["ids"]}):
+                            try:
+                                self.pool[i].compute(executor=self.H.make_executor("single-threaded"), optimize_graph=step["optimize"])
+                            except Exception:
+                                alone_ok = False
+                                break
+                    finally:
+                        inner.clear()
+                        inner.update(snap)
+                    if alone_ok:
+                        self.failures.append(Failure(f"compute-together-failed:{type(e).__name__}", f"step {idx}: compute of members {step['ids']} (optimize={step['optimize']}, resume={step.get('resume')}) raised {e!r} although each member computes on its own"[:300]))
         self.check_invariants(step, idx)
 
     def _add(self, a, val, idx):
